@@ -117,6 +117,24 @@ def handle (op : String) (args res : List String) : Option Verdict :=
          | _, _ => .bad s!"Transfer(same zone): impl={res}")
       | _, _, _, _, _ => .bad "parse"
     | _ => .bad "parse"
+  | "transfer_via" => some <|
+    -- Transfer between different zones; the kernels are the results of the implementation's own Reverse / Forward
+    match args with
+    | [z, n1, x, y, zo, n2, re, rlat, rlon, fe, fz, fn, fx, fy] =>
+      match parseI z, pb n1, parseF x, parseF y, parseI zo, pb n2, pb re, parseFs [rlat, rlon], pb fe, parseI fz, pb fn, parseFs [fx, fy] with
+      | some zone, some np1, some xx, some yy, some zout, some np2, some revOk, some [lat, lon], some fwdOk, some z2, some nn2, some [x2, y2] =>
+        let rev : Int → Bool → F64 → F64 → Except Err (F64 × F64) := fun _ _ _ _ => if revOk then .ok (lat, lon) else .error "Reverse"
+        let fwd : F64 → F64 → Int → Except Err FwdOut := fun _ _ _ => if fwdOk then .ok ⟨z2, nn2, x2, y2, .nan, .nan⟩ else .error "Forward"
+        (match transfer zone np1 xx yy zout np2 rev fwd, res with
+         | .error _, ["!E"] => .ok
+         | .ok (mx, my, mz), [rx, ry, rz] =>
+           (match parseF rx, parseF ry, parseI rz with
+            | some ix, some iy, some iz => if F64.same mx ix && F64.same my iy && iz == mz then .ok else .bad s!"Transfer(different zones): impl=({showF ix},{showF iy},{iz}) model=({showF mx},{showF my},{mz})"
+            | _, _, _ => .bad "parse")
+         | .error e, _ => .bad s!"Transfer(different zones): model rejects ({e}), impl={res}"
+         | .ok _, _ => .bad s!"Transfer(different zones): model accepts, impl={res}")
+      | _, _, _, _, _, _, _, _, _, _, _, _ => .bad "parse"
+    | _ => .bad "parse"
   | _ => none
 
 end GeoVerif.Corr.C04
